@@ -169,6 +169,22 @@ func genC01(e *emitter, r *rng, thorough bool) {
 	scalars := scalarBytesPool(r, nr)
 	for _, k := range scalars {
 		e.emit("sbmul", "curve.sbmul "+hx(k))
+		// the scalar decomposition and recoding inside ScalarMult (through the build-tag hooks)
+		if len(k) <= 32 {
+			e.emit("splitk", "impl.splitk "+hx(k))
+		}
+		e.emit("naf", "impl.naf "+hx(k))
+	}
+	for i := 0; i < 40*nr; i++ {
+		e.emit("splitk.rand", "impl.splitk "+hx(r.bytes(32)))
+		b := r.bytes(1 + r.intn(20))
+		// runs of ones make the NAF carry ripple; a leading 0xff.. makes it leave the top
+		for j := range b {
+			if r.coin(1, 3) {
+				b[j] = 0xff
+			}
+		}
+		e.emit("naf.rand", "impl.naf "+hx(b))
 	}
 	for i, a := range pool {
 		for j, k := range scalars {
